@@ -79,6 +79,26 @@ class ServerBox(object):
         self.rets[name] = ret
         self.d.register_function(rec, name)
 
+    def new_instance(self, ret):
+        """Registers a fresh instance (it REPLACES the previous one): its public method `im`, and `sub.im` one level down,
+        record the generation they belong to."""
+        box = self
+        box.gen = getattr(box, "gen", 0) + 1
+        gen = box.gen
+        box.inst_ret = ret
+
+        def mk(label):
+            def im(self_, *a, **k):
+                with box.lock:
+                    box.log.append({"name": "%s@%d" % (label, gen), "args": enc(list(a)), "kwargs": enc(k)})
+                return box.inst_ret
+            return im
+        Sub = type("Sub", (object,), {"im": mk("sub.im")})
+        Inst = type("Inst", (object,), {"im": mk("im")})
+        inst = Inst()
+        inst.sub = Sub()
+        self.d.register_instance(inst, allow_dotted_names=True)
+
     def proxy(self, vc, jc, history):
         cfg = jsonrpclib.config.Config(version=1.0 if vc == "1" else 2.0, use_jsonclass=jc)
         if self.leg == "loopback":
@@ -142,8 +162,18 @@ def run_case(c, box, rnd, counter):
                     kwargs["second"] = rnd.choice(MARKED)
                 else:
                     args = args + [rnd.choice(MARKED)]
-        box.register(name, ret)
-        jobs.append({"name": name, "kw": kw, "notify": notify, "args": args, "kwargs": kwargs, "ret": ret})
+        inst = style in ("plain_pos", "plain_kw", "dotted_pos", "dotted_kw", "noargs") and rnd.random() < 0.15
+        if inst:
+            # a method of the registered instance; the instance is sometimes replaced since the last such call
+            if not getattr(box, "gen", 0) or rnd.random() < 0.5:
+                box.new_instance(ret)
+            box.inst_ret = ret
+            callname = "sub.im" if style.startswith("dotted") else "im"
+            name = "%s@%d" % (callname, box.gen)
+        else:
+            callname = name
+            box.register(name, ret)
+        jobs.append({"name": name, "call": callname, "kw": kw, "notify": notify, "args": args, "kwargs": kwargs, "ret": ret})
     with box.lock:
         del box.log[:], box.wire_req[:], box.wire_resp[:]
     hist = History()
@@ -153,13 +183,34 @@ def run_case(c, box, rnd, counter):
         if style.startswith("batch"):
             mc = jsonrpc.MultiCall(p)
             for job in jobs:
-                target = resolve(mc._notify if job["notify"] else mc, job["name"])
+                target = resolve(mc._notify if job["notify"] else mc, job["call"])
                 target(**job["kwargs"]) if job["kw"] else target(*job["args"])
             res = mc()
             outcome["results"] = [enc(x) for x in res]
         else:
             job = jobs[0]
-            target = resolve(p._notify if job["notify"] else p, job["name"])
+            parts = job["call"].split(".")
+            if len(parts) > 1 and rnd.random() < 0.5:
+                # a retained prefix object (m = proxy.a.b) used for a sibling first, then for the call under test
+                prefix = resolve(p._notify if job["notify"] else p, ".".join(parts[:-1]))
+                warm = ".".join(parts[:-1]) + ".warm_%d" % counter[0]
+                box.register(warm, None)
+                try:
+                    getattr(prefix, "warm_%d" % counter[0])()
+                except BaseException:  # noqa
+                    pass
+                deadline = time.time() + 1.0
+                while time.time() < deadline:
+                    with box.lock:
+                        if len(box.wire_resp) >= len(hist.responses) and box.log:
+                            break
+                    time.sleep(0.001)
+                hist.clear()
+                with box.lock:
+                    del box.log[:], box.wire_req[:], box.wire_resp[:]
+                target = getattr(prefix, parts[-1])
+            else:
+                target = resolve(p._notify if job["notify"] else p, job["call"])
             v = target(**job["kwargs"]) if job["kw"] else target(*job["args"])
             outcome["single"] = enc(v)
             if not job["notify"]:
